@@ -16,6 +16,7 @@ ids pushed by `Remote::schedule` wait in `sync` (`Shared::sync`, capacity `cap`)
 interleavings of ONE task with a remote handle are in Compio/Model/RemoteJoin.lean.
 -/
 import Compio.Gen.TaskState
+import Compio.Model.QueueIntrusive
 
 namespace Compio.Executor
 open Compio.TaskWord
@@ -76,10 +77,13 @@ structure Exec where
                              -- the current / last tick began (an operation is admitted while this is < cap)
   inflight : Option Nat      -- id reserved by a `Remote::schedule` that found the sync queue full and waits for
                              -- the executor to drain it (only during the tick inside `remoteWakeB`)
+  qlog : List QueueIntrusive.Op  -- ghost: the `TaskQueue` calls made so far that changed the queue (insert,
+                             -- make_hot, make_cold, remove, clear), in order; replayed on the intrusive model
+                             -- (Model/QueueIntrusive.lean) by the driver and in `queue_log_replays`
   deriving DecidableEq, Repr
 
 /-- `Executor::with_config` with `sync_queue_size = q` (0 is taken as 1: `ArrayQueue::new(0)` panics) -/
-def Exec.new (q : Nat) : Exec := ⟨[], [], [], [], true, [], 0, if q = 0 then 1 else q, 0, none⟩
+def Exec.new (q : Nat) : Exec := ⟨[], [], [], [], true, [], 0, if q = 0 then 1 else q, 0, none, []⟩
 
 def Exec.init : Exec := Exec.new 64
 
@@ -102,15 +106,19 @@ def dropRef (t : TaskSt) : TaskSt :=
 
 /-- `TaskQueue::make_hot`: only a task that is in the map and cold moves (to the hot tail) -/
 def makeHot (e : Exec) (id : Nat) : Exec :=
-  if e.cold.contains id then { e with cold := e.cold.erase id, hot := e.hot ++ [id] } else e
+  if e.cold.contains id then
+    { e with cold := e.cold.erase id, hot := e.hot ++ [id], qlog := e.qlog ++ [.makeHot id] }
+  else e
 
 /-- `TaskQueue::make_cold` -/
 def makeCold (e : Exec) (id : Nat) : Exec :=
-  if e.hot.contains id then { e with hot := e.hot.erase id, cold := e.cold ++ [id] } else e
+  if e.hot.contains id then
+    { e with hot := e.hot.erase id, cold := e.cold ++ [id], qlog := e.qlog ++ [.makeCold id] }
+  else e
 
 /-- `TaskQueue::remove` -/
 def removeTask (e : Exec) (id : Nat) : Exec :=
-  { e with cold := e.cold.erase id, hot := e.hot.erase id }
+  { e with cold := e.cold.erase id, hot := e.hot.erase id, qlog := e.qlog ++ [.remove id] }
 
 /-- `Shared::drain_sync`: fast path on `pending == 0`, otherwise pop everything, `make_hot` each id,
 `pending -= drained` -/
@@ -289,7 +297,7 @@ def spawn (e : Exec) (script : List Outcome) : Exec × Nat :=
                       shared := true, handle := true, wakers := 0, polls := 0, futDrops := 0,
                       resTaken := 0, resDrops := 0, slotSets := 0, slotDrops := 0, deallocs := 0, uaf := 0,
                       badPolls := 0 }
-  ({ e with tasks := e.tasks ++ [t], hot := e.hot ++ [id] }, id)
+  ({ e with tasks := e.tasks ++ [t], hot := e.hot ++ [id], qlog := e.qlog ++ [.insert] }, id)
 
 /-- `Remote::poll` with waker `w`, run to completion on another thread while the executor thread does
 nothing (so the snapshots of `start_setting_waker` / `finish_setting_waker` show what `load` showed) -/
@@ -419,7 +427,7 @@ def clearTask (e : Exec) (id : Nat) : Exec :=
 
 /-- `Executor::clear` / `Drop`: the sync queue is emptied, every task still in the map is dropped by the executor -/
 def clearAll (e : Exec) : Exec :=
-  { (e.hot ++ e.cold).foldl clearTask e with hot := [], cold := [], sync := [] }
+  { (e.hot ++ e.cold).foldl clearTask e with hot := [], cold := [], sync := [], qlog := e.qlog ++ [.clear] }
 
 def execDrop (e : Exec) : Exec := { clearAll e with alive := false }
 
